@@ -214,8 +214,8 @@ def strat_clean(draw, tier):
     unit = vs.chan_unit(nbits)
     nchans = unit * draw(st.integers(max(1, 8 // unit), max(1, 8 // unit) + 2))
     N = draw(st.integers(40, 120 if tier == "quick" else 300))
-    nfiles = draw(st.sampled_from([1, 1, 2]))
-    split = [N] if nfiles == 1 else [N // 3, N - N // 3]
+    nfiles = draw(st.sampled_from([1, 1, 2, 3]))
+    split = [N] if nfiles == 1 else ([N // 3, N - N // 3] if nfiles == 2 else [N // 4, N // 2, N - N // 4 - N // 2])
     start = draw(st.one_of(st.just(0), st.integers(0, N // 2)))
     nsamps = None if draw(st.booleans()) else draw(st.integers(20, N - start))
     eff = N - start if nsamps is None else nsamps
